@@ -95,11 +95,22 @@ def observe_graph(chain, names_html):
             continue
         m = re.fullmatch(r"dec(\d+)", n)
         ids.append(int(m.group(1)) if m else -1)
-    try:
-        r = subprocess.run(["dot", "-Tsvg"], input=src.encode(), capture_output=True, timeout=60)
-        dot_ok = r.returncode == 0 and b"<svg" in r.stdout
-    except Exception:  # noqa: BLE001
-        dot_ok = False
+    # Graphviz refusing the text is an observation; Graphviz not running (time-out / kill under load) is not:
+    # retried, and a machinery failure if it persists
+    dot_ok = None
+    for attempt in range(3):
+        try:
+            r = subprocess.run(["dot", "-Tsvg"], input=src.encode(), capture_output=True, timeout=120 * (attempt + 1))
+        except Exception:  # noqa: BLE001
+            continue
+        if r.returncode == 0 and b"<svg" in r.stdout:
+            dot_ok = True
+            break
+        if r.returncode > 0 and (b"rror" in r.stderr or b"syntax" in r.stderr):
+            dot_ok = False
+            break
+    if dot_ok is None:
+        raise Machinery("Graphviz `dot` could not be run to completion (3 attempts)")
     root = nodes.get("mother", {"cells": ["?no-root"]})
     return {"root_cells": [back.get(c, "?" + c) for c in root["cells"]], "nodes": top, "ids": ids, "nnodes": len(nodes),
             "nedges": len(edges), "stray": stray, "dot_ok": dot_ok}, src
